@@ -9,6 +9,7 @@
 Exit codes: 0 held / 1 violation (with a VIOLATION line) / 2 build or harness trouble.
 """
 import argparse
+import tempfile
 import hashlib
 import json
 import os
@@ -197,7 +198,7 @@ def gen_overlay(bd, engine):
         for f in sorted(os.listdir(srcdir)):
             if f.endswith(".go"):
                 rep[os.path.join(REPO, e["pkg"], f)] = os.path.join(srcdir, f)
-    if e.get("weave"):
+    if e.get("weave") and not os.environ.get("VERIF_NOWEAVE"):
         rep.update(run_weave(bd, engine, e["weave"]))
     path = os.path.join(bd, "overlay-%s.json" % engine)
     open(path, "w").write(json.dumps({"Replace": rep}, indent=1))
@@ -394,8 +395,23 @@ def cover(props, budget):
     for prop in props:
         cfg = PROPS[prop]
         engine = cfg["engine"]
-        if engine == "woven":
-            print("== coverage %s: skipped (runs only on woven sources; cover instrumentation and the weave do not compose)" % prop)
+        if ENGINES[engine].get("weave") and not os.environ.get("VERIF_NOWEAVE"):
+            # cmd/cover does not see files substituted through -overlay: put the
+            # woven files into a scratch copy of the tree and measure there
+            # (block positions then refer to the woven source; the report quotes it)
+            rep = run_weave(bd, engine, ENGINES[engine]["weave"])
+            scratch = tempfile.mkdtemp(prefix="verif-cover-", dir="/var/tmp")
+            try:
+                dst = os.path.join(scratch, "repo")
+                run(["rsync", "-a", "--exclude", ".git", REPO + "/", dst + "/"], check=True)
+                for orig, woven in rep.items():
+                    shutil.copyfile(woven, os.path.join(dst, os.path.relpath(orig, REPO)))
+                env2 = dict(os.environ, VERIF_REPO=dst, VERIF_NOWEAVE="1")
+                run([sys.executable, os.path.abspath(__file__), "cover", prop, "--budget", str(budget)], env=env2)
+                sub_bd = os.path.join(BUILD, hashlib.sha1(dst.encode()).hexdigest()[:10])
+                shutil.rmtree(sub_bd, ignore_errors=True)
+            finally:
+                shutil.rmtree(scratch, ignore_errors=True)
             continue
         binary, _ = build_engine(engine, cover=True)
         wd = os.path.join(bd, "cover-%s" % prop)
@@ -427,7 +443,8 @@ def cover(props, budget):
                 merged[k] = max(merged.get(k, 0), int(cnt))
         shutil.rmtree(wd, ignore_errors=True)
         _cover_report(prop, mine, outdir)
-    _cover_report("ALL", merged, outdir)
+    if len(props) > 1:
+        _cover_report("ALL-unwoven-engines", merged, outdir)
     for e in set(PROPS[p]["engine"] for p in props):
         try:
             os.unlink(os.path.join(bd, e + ".cover.test"))
@@ -454,11 +471,26 @@ def _cover_report(name, blocks, outdir):
         lines.append("%-55s %4d/%4d %5.1f%%" % (f, hit, tot, 100.0 * hit / tot))
     with open(os.path.join(outdir, name + ".txt"), "w") as fh:
         fh.write("# statement coverage of repository code under the harness (files with at least one statement reached)\n")
-        fh.write("\n".join(lines) + "\n\n# blocks never executed (file: start.col,end.col)\n")
+        fh.write("\n".join(lines) + "\n\n# blocks never executed: file:start.col,end.col  first line of the block\n")
         for f in sorted(per):
             hit, tot, miss = per[f]
-            if hit and miss:
-                fh.write("%s: %s\n" % (f, " ".join(sorted(miss, key=lambda x: int(x.split(".")[0])))))
+            if not (hit and miss):
+                continue
+            try:
+                src = open(os.path.join(REPO, f)).read().split("\n")
+            except OSError:
+                src = []
+            for blk in sorted(miss, key=lambda x: int(x.split(".")[0])):
+                l1 = int(blk.split(".")[0])
+                c1 = int(blk.split(",")[0].split(".")[1])
+                text = src[l1 - 1] if 0 < l1 <= len(src) else ""
+                if c1 >= len(text.rstrip()) and l1 < len(src):
+                    text = src[l1]  # the block opens at the end of the line: quote its first statement
+                    l1 += 1
+                while text.strip().startswith("verifrt.Y(") and l1 < len(src):
+                    text = src[l1]  # skip woven yields
+                    l1 += 1
+                fh.write("%s:%s  %s\n" % (f, blk, text.strip()))
     print("== coverage %s" % name)
     print("\n".join(lines))
 
